@@ -122,6 +122,8 @@ def parseTop : List String → Option Top
   | ["reg_net", id, fd, d] => do pure (.api (.regNet (← id.toNat?) (← fd.toNat?) (← parseDir d)))
   | ["cancel_net", fd, d] => do pure (.api (.cancelNet (← fd.toNat?) (← parseDir d)))
   | ["reg_tm", id, us] => do pure (.api (.regTimer (← id.toNat?) (← us.toNat?)))
+  -- whole seconds through events_timer_register_double: the same registration, in microseconds
+  | ["reg_tmd", id, sec] => do pure (.api (.regTimer (← id.toNat?) ((← sec.toNat?) * 1000000)))
   | ["cancel_tm", id] => do pure (.api (.cancelTimer (← id.toNat?)))
   | ["reset_tm", id] => do pure (.api (.resetTimer (← id.toNat?)))
   | ["clock", us] => do pure (.api (.clock (← us.toNat?)))
